@@ -834,6 +834,7 @@ package corerad
 //@   ensures E1 [C10]: (result != nil) == (ghost.recvd && ghost.rok)
 //@   ensures E2 [C10]: result != nil ==> result == global("system.ErrLinkChange")
 //@   ensures E3 [C10]: watchC == nil ==> !ghost.recvd
+//@   ensures E4 [C10]: watchC != nil && result == nil ==> isDone(ctx) || (ghost.recvd && !ghost.rok)
 //@   opt safety [C10]
 
 // The errgroup members: each runs its function with the variables advertise
